@@ -13,8 +13,22 @@ import vlib
 
 QTY = [0, 1, 7, 8, 9, 123, 124, 125, 126, 1968, 1969, 1976, 1977, 2000, 2001, 2008]
 KNOWN_FC = [1, 2, 3, 4, 5, 6, 15, 16]
-REQUIRES = ['Base.Show', 'Base.ServerTypes', 'Model.Server', 'Model.ServerExec', 'Spec.Modbus']
-MODULES = ['Base.Show', 'Base.ServerTypes', 'Model.Server', 'Model.ServerExec', 'Spec.Modbus']
+SPEC_MODULES = ['Base.Show', 'Base.ServerTypes', 'Spec.Modbus', 'Model.ServerRender']
+MODULES = SPEC_MODULES + ['Model.Server', 'Model.ServerExec']
+STATE = {'model_ok': True}
+
+
+def prepare(ctx):
+    """translate, build the Spec evaluator and the model, prove, build the harness. Returns False when
+    nothing can be run. When only the model (or a generated table it imports) no longer compiles,
+    the implementation is still compared with the Spec."""
+    ctx.translate(['Consts.v', 'AuthzTable.v'])
+    spec_ok = ctx.build_models(SPEC_MODULES)
+    STATE['model_ok'] = ctx.build_models(MODULES) if spec_ok else False
+    ctx.prove()
+    if ctx.tier == 'thorough':
+        ctx.coqchk()
+    return bool(ctx.build_harness() and spec_ok)
 
 
 def crc16(data):
@@ -337,8 +351,11 @@ def run_impl(ctx, cases, shards=16):
 def run_coq(ctx, cases, per_shard=None):
     if per_shard is None:
         per_shard = max(20, min(200, len(cases) // 16 + 1))
-    res = ctx.coq_eval(REQUIRES, 'run_both', [to_coq(c) for c in cases], case_type='case', per_shard=per_shard)
-    return [tuple(x.split('#')) for x in res]
+    if STATE['model_ok']:
+        res = ctx.coq_eval(MODULES, 'run_both', [to_coq(c) for c in cases], case_type='case', per_shard=per_shard)
+        return [tuple(x.split('#')) for x in res]
+    res = ctx.coq_eval(SPEC_MODULES, 'run_spec', [to_coq(c) for c in cases], case_type='case', per_shard=per_shard)
+    return [(None, x) for x in res]
 
 
 def split3(line):
@@ -351,6 +368,20 @@ def split3(line):
 
 def handler_calls(log):
     return [e for e in log if not e.startswith('au.')]
+
+
+def expand_runs(log):
+    """undo the run merging of read entries: rc.1.5-7 -> rc.1.5, rc.1.6, rc.1.7 (runs are merged across
+    requests, so two logs of the same calls can be split differently when other entries intervene)"""
+    out = []
+    for e in log:
+        if e[:3] in ('rc.', 'rd.', 'rh.', 'ri.'):
+            pre, rng = e.rsplit('.', 1)
+            a, b = rng.split('-')
+            out.extend(f'{pre}.{k}' for k in range(int(a), int(b) + 1))
+        else:
+            out.append(e)
+    return out
 
 
 def auth_calls(log):
@@ -366,6 +397,12 @@ def observe(line, what):
     if what == 'all':
         return (rep, log, end)
     raise ValueError(what)
+
+
+def differs(i, b, what):
+    """implementation line i differs from the Spec (or from the model, when it could be evaluated)"""
+    oi = observe(i, what)
+    return oi != observe(b[1], what) or (b[0] is not None and oi != observe(b[0], what))
 
 
 def shrink_candidates(case):
@@ -433,7 +470,8 @@ def compare(ctx, cases, what, prefix, label):
     both = run_coq(ctx, cases)
     n_spec = n_model = 0
     for c, i, (m, s) in zip(cases, impl, both):
-        oi, om, os_ = observe(i, what), observe(m, what), observe(s, what)
+        oi, os_ = observe(i, what), observe(s, what)
+        om = observe(m, what) if m is not None else oi
         if oi != os_:
             n_spec += 1
             if n_spec <= 2:
@@ -511,6 +549,37 @@ def all_fc_cases():
     out = []
     for base in range(0, 256, 8):
         frames = tuple((base + i, 1, bytes([base + i, 0, 1, 0, 1])) for i in range(8))
+        out.append(('tcp', (simple_unit(),), None, frames))
+    return out
+
+
+def fc_length_sweep(r):
+    """thorough tier, TCP: the eight known function codes x every PDU length 1..253 x 4 payload fillings,
+    and every other function code x 12 lengths, 12 frames per session"""
+    pdus = []
+    for fc in KNOWN_FC:
+        for ln in range(1, 254):
+            for fill in range(4):
+                if fill == 0:
+                    body = rnd_bytes(r, ln - 1)
+                elif fill == 1:
+                    body = [0] * (ln - 1)
+                elif fill == 2:
+                    body = [255] * (ln - 1)
+                else:
+                    # plausible header: small start, quantity matching the length where one exists
+                    data = max(0, ln - 6)
+                    q = data * 8 if fc == 15 else data // 2 if fc == 16 else r.choice(QTY)
+                    body = (be(r.randrange(0, 64)) + be(q) + [data & 255] + rnd_bytes(r, 260))[:ln - 1]
+                pdus.append(bytes([fc] + body))
+    for fc in range(256):
+        if fc in KNOWN_FC:
+            continue
+        for ln in (1, 2, 3, 5, 6, 7, 10, 100, 250, 251, 252, 253):
+            pdus.append(bytes([fc] + rnd_bytes(r, ln - 1)))
+    out = []
+    for i in range(0, len(pdus), 12):
+        frames = tuple(((i + k) & 0xFFFF, 1, p) for k, p in enumerate(pdus[i:i + 12]))
         out.append(('tcp', (simple_unit(),), None, frames))
     return out
 
